@@ -109,6 +109,7 @@ X3 == <<"x1", "x2", "x3">>
 SQ33  == Mk(X3, X3, <<<<1, 2, 0>>, <<0, 3, 4>>, <<5, 0, 6>>>>, OMD3, SMD3, "OTU table")
 SQ33q == Mk(<<"x3", "x1", "x2">>, X3, <<<<9, 8, 7>>, <<6, 5, 4>>, <<3, 2, 1>>>>, NoMd, NoMd, "")   \* samples = the partner's observations
 SQ33p == Mk(<<"x3", "x1", "x2">>, <<"x2", "x3", "x1">>, <<<<9, 8, 7>>, <<6, 5, 4>>, <<3, 2, 1>>>>, NoMd, NoMd, "")
+MZ    == Mk(<<"o3", "o4">>, <<"s1", "s2">>, <<<<0, 0>>, <<0, 0>>>>, OMDb, NoMd, "")            \* an operand whose block is all zero
 ME2   == Mk(<<"o3", "o4">>, <<"s2", "s1">>, <<<<5, 6>>, <<7, 0>>>>, OMDb, NoMd, "OTU table")    \* a typed operand after an untyped one
 T33n  == Mk(O3, S3, <<<<1, 0, 2>>, <<3, 0, 4>>, <<5, 6, 0>>>>, NoMd, NoMd, "")
 MP3   == Mk(<<"o2", "o3", "o1">>, <<"s4", "s5">>, <<<<1, 2>>, <<3, 4>>, <<5, 6>>>>, NoMd, NoMd, "")  \* a 3-cycle of the observations
